@@ -54,6 +54,17 @@ def alphabet(v):
     ]
 
 
+# 12-surface prescriptions mixing every shape, glasses, a mirror pair, decentres and tilts
+LONG_WORDS = [
+    [0, 1, 2, 6, 7, 1, 12, 13, 0, 4, 5, 1],
+    [3, 1, 9, 8, 0, 1, 10, 6, 2, 1, 7, 4],
+    [0, 1, 11, 11, 0, 1, 2, 4, 12, 13, 7, 8],
+    [7, 8, 2, 1, 0, 14, 0, 1, 9, 6, 5, 4],
+    [10, 1, 0, 1, 2, 6, 3, 1, 12, 1, 0, 8],
+    [2, 6, 0, 4, 7, 1, 11, 0, 1, 11, 5, 1],
+]
+
+
 def units(tier, variant):
     A = alphabet(variant)
     out = []
@@ -62,6 +73,8 @@ def units(tier, variant):
     else:
         ws = list(LZ.words(A, 1, 3)) + list(LZ.words(A[:8], 4, 4))
     for w in ws:
+        out.append(dict(kind='word', word=list(w), variant=variant))
+    for w in LONG_WORDS:
         out.append(dict(kind='word', word=list(w), variant=variant))
     if variant == 0 or tier == 'quick':
         for name in LZ.sample_lenses():
